@@ -27,6 +27,8 @@ def jobs(tier, seed):
     for m in range(len(LEX_MODULES)):
         for k in range(nl):
             js.append(f"lexer-{m}-{k}of{nl}")
+    nf = 16 if tier == 'quick' else 32
+    js += [f"frag-{k}of{nf}" for k in range(nf)]
     return js + ['native']
 
 
@@ -257,6 +259,9 @@ def prepare():
     pipe.dump()
 
 
+PUNCT_MORE = False   # the fragment jobs also split next to  : | ^ <  (set while their work lists are built)
+
+
 def boundaries(mod):
     """(position, width): width 1 = replace the single space at position; width 0 = insert at position"""
     import re
@@ -277,6 +282,8 @@ def boundaries(mod):
         if pair in ('::', ':=', '..', '[[', ']]'):
             continue
         if prev in '{}(),;[]' or ch in '{}(),;[]':
+            out.append((i, 0))
+        elif PUNCT_MORE and (prev in ':|^<' or ch in ':|^<'):
             out.append((i, 0))
     return out
 
@@ -361,6 +368,217 @@ def job_lexer(prog, chk, mi, k, n, tier):
     chk.res.bounds = {'modules': len(LEX_MODULES), 'filler': 'ws1, line(2), block(2), inline(1) [+ws2]', 'boundaries': len(bs)}
 
 
+# ---- fragment jobs: the parsers of single assignments run from real MIR on one assignment each, so that the constructs
+# the four fixed modules do not contain get the same treatment (a filler with symbolic characters at every token boundary)
+TYPE_DECL = 'rasn_compiler::lexer::top_level_type_declaration'
+VALUE_DECL = 'rasn_compiler::lexer::top_level_value_declaration'
+INFO_DECL = 'rasn_compiler::lexer::top_level_information_declaration'
+CLASS_DECL = 'rasn_compiler::lexer::information_object_class::object_class_assignement'
+HEADER = 'rasn_compiler::lexer::module_header::module_header'
+MACRO_DECL = 'rasn_compiler::lexer::macros::macro_definition'
+FRAGMENTS = [
+    (TYPE_DECL, "T ::= BIT STRING { a(0), b(1) } (SIZE (2))"),
+    (TYPE_DECL, "T ::= INTEGER { a(1), b(-2) } (a..b)"),
+    (TYPE_DECL, "T ::= SET { a [0] EXPLICIT Tt, COMPONENTS OF B, ..., c NULL }"),
+    (TYPE_DECL, "T ::= SEQUENCE { a Tt, ..., [[ 2: c NULL, d Tt OPTIONAL ]] }"),
+    (TYPE_DECL, "T ::= SEQUENCE (SIZE (1..4)) OF b BOOLEAN"),
+    (TYPE_DECL, "T ::= SET SIZE (1) OF Mm.Tt"),
+    (TYPE_DECL, "T ::= CHOICE { a NULL, ..., [[ b INTEGER ]] }"),
+    (TYPE_DECL, "T ::= OCTET STRING (CONTAINING Tt)"),
+    (TYPE_DECL, "T ::= Base (WITH COMPONENTS { ..., a (0) PRESENT, b ABSENT })"),
+    (TYPE_DECL, "T ::= SEQUENCE OF Ee (WITH COMPONENT (SIZE (2)))"),
+    (TYPE_DECL, "T ::= VisibleString (FROM (\"a\"..\"z\" | \"0\") ^ SIZE (1..MAX))"),
+    (TYPE_DECL, "T ::= UTF8String (PATTERN \"ab\")"),
+    (TYPE_DECL, "T ::= INTEGER (ALL EXCEPT 5)"),
+    (TYPE_DECL, "T ::= INTEGER (0..5 UNION 7 INTERSECTION 8)"),
+    (TYPE_DECL, "T ::= INTEGER (MIN..<MAX)"),
+    (TYPE_DECL, "T ::= INTEGER (0..5) (2..3)"),
+    (TYPE_DECL, "T ::= [APPLICATION 3] IMPLICIT SEQUENCE {}"),
+    (TYPE_DECL, "T {INTEGER: n, Tp} ::= SEQUENCE { a Tp (SIZE (n)) }"),
+    (TYPE_DECL, "T ::= Pp {5, BOOLEAN}"),
+    (TYPE_DECL, "T ::= a < Cc"),
+    (TYPE_DECL, "T ::= SEQUENCE { id CL.&id ({Set}), v CL.&Vv ({Set}{@id}) }"),
+    (TYPE_DECL, "T ::= OBJECT IDENTIFIER"),
+    (TYPE_DECL, "T ::= RELATIVE-OID"),
+    (TYPE_DECL, "T ::= ANY DEFINED BY a"),
+    (TYPE_DECL, "T ::= EMBEDDED PDV"),
+    (TYPE_DECL, "T ::= EXTERNAL"),
+    (TYPE_DECL, "T ::= REAL (0..5)"),
+    (TYPE_DECL, "T ::= GeneralizedTime"),
+    (TYPE_DECL, "T ::= SEQUENCE { a INTEGER (0..5) DEFAULT 2, b [1] Tt OPTIONAL }"),
+    (VALUE_DECL, "v BIT STRING ::= '0101'B"),
+    (VALUE_DECL, "v OCTET STRING ::= 'AB'H"),
+    (VALUE_DECL, "v Tt ::= { a 1, b TRUE }"),
+    (VALUE_DECL, "v Tt ::= a:5"),
+    (VALUE_DECL, "v Tt ::= a:b:TRUE"),
+    (VALUE_DECL, "v OBJECT IDENTIFIER ::= { iso standard 8571 a(1) }"),
+    (VALUE_DECL, "v REAL ::= { mantissa 1, base 2, exponent 3 }"),
+    (VALUE_DECL, "v Tt ::= { a, b }"),
+    (VALUE_DECL, "v INTEGER ::= -5"),
+    (VALUE_DECL, "v Mm.Tt ::= other"),
+    (VALUE_DECL, "v Tt ::= { 1, 2 }"),
+    (VALUE_DECL, "v UTF8String ::= { 0, 0, 1, 2 }"),
+    (VALUE_DECL, "v INTEGER (0..5) ::= 3"),
+    (CLASS_DECL, "CL ::= CLASS { &id INTEGER UNIQUE, &Type OPTIONAL, &val Tt DEFAULT 5 } WITH SYNTAX { ID &id [TYPE &Type] }"),
+    (INFO_DECL, "o CL ::= { ID 5 TYPE BOOLEAN }"),
+    (INFO_DECL, "o CL ::= { &id 5, &Type INTEGER }"),
+    (INFO_DECL, "Ss CL ::= { o1 | o2, ... }"),
+    (HEADER, "Mm { iso(1) a(2) } DEFINITIONS IMPLICIT TAGS EXTENSIBILITY IMPLIED ::= BEGIN EXPORTS ALL; IMPORTS A, b FROM Nn { 1 2 } c FROM Oo WITH SUCCESSORS;"),
+    (HEADER, "Mm DEFINITIONS ::= BEGIN EXPORTS A, b; IMPORTS Aa{}, CL FROM Nn;"),
+    (MACRO_DECL, "OP MACRO ::= BEGIN TYPE NOTATION ::= \"X\" VALUE NOTATION ::= value (VALUE INTEGER) END"),
+]
+FRAG_TAIL = " Zz"
+
+
+CMT_FORMS = [[47, 42, 120, 42, 47], [32, 45, 45, 120, 10], [32, 45, 45, 120, 45, 45, 32]]
+
+
+def frag_work(tier):
+    """quick: per fragment five runs that put a filler at EVERY token boundary at once - one symbolic white-space character over
+    {space, tab, CR} per boundary (all 3^k assignments are decided on ONE path: the character predicates are summarised into one
+    term each, core.summarize_bool; LF is kept apart because the line counter of Input::slice forks on it), LF at every boundary,
+    and the three comment forms rotating over the boundaries;
+    thorough: additionally every (boundary, template) pair on its own with symbolic comment bodies"""
+    work = []
+    global PUNCT_MORE
+    PUNCT_MORE = True
+    for fi, (entry, text) in enumerate(FRAGMENTS):
+        for mode in ('wsall', 'lfall', 'cmt0', 'cmt1', 'cmt2'):
+            work.append((fi, None, mode))
+        if tier != 'quick':
+            for b in boundaries(text):
+                for t in templates(tier):
+                    work.append((fi, b, t))
+    return work
+
+
+def job_frag(prog, chk, k, n, tier):
+    from mirsym import pipe
+    chk.ex.max_path_steps = 5000000
+    runner = native.Runner()
+    base = {}
+
+    def parsed(ex, res):
+        ir = scan.IR(ex)
+        r = ir.f(res)
+        if ir.vn(r) != 'Ok':
+            return ('err', None, None)
+        t = ir.f(r.fields[0])
+        rest = ir.f(t.fields[0])
+        inner = [f for f in rest.fields if isinstance(f, (StrRef, StringV))]
+        return ('ok', t.fields[1], len(inner[0].chars) if inner else None)
+
+    def wrap(text):
+        return f"M DEFINITIONS ::= BEGIN {text} END"
+    try:
+        for fi, bnd, tmpl in frag_work(tier)[k::n]:
+            entry, text = FRAGMENTS[fi]
+            fn = prog.find(entry)
+            input_ty = prog.inst[fn]['locals'][1]
+            full = text + FRAG_TAIL
+            if fi not in base:
+                b = chk.explore(lambda ex: parsed(ex, ex.call(fn, [mk_input(ex, prog, input_ty, [ord(c) for c in full])])))
+                if len(b) != 1 or b[0].kind != 'ok' or b[0].value[0] != 'ok':
+                    # the fragment as written is not accepted: nothing to compare with (recorded, not a verdict)
+                    base[fi] = None
+                    chk.res.inconclusive.append(f"baseline parse of fragment {fi} {text!r}: {[(r.kind, str(r.value)[:160]) for r in b[:2]]}")
+                else:
+                    base[fi] = b[0].value
+            if base[fi] is None:
+                continue
+            bval, brest = base[fi][1], base[fi][2]
+            # pieces: list of (literal text | filler list) making up the modified fragment
+            cs, pieces, constraints = [], [], []
+            if bnd is None:
+                bs = sorted(b for b in boundaries(text))
+                last = 0
+                for j, (pos, width) in enumerate(bs):
+                    pieces.append(full[last:pos])
+                    if tmpl == 'wsall':
+                        c = z3.BitVec(f"w{j}", 32)
+                        cs.append((c, 'ws3'))
+                        pieces.append([c])
+                    elif tmpl == 'lfall':
+                        pieces.append([10])
+                    else:
+                        pieces.append(list(CMT_FORMS[(j + int(tmpl[3])) % 3]))
+                    last = pos + width
+                pieces.append(full[last:])
+                where = f"{tmpl} at all {len(bs)} boundaries"
+            else:
+                (pos, width), (tname, mk, nsym, alpha) = bnd, tmpl
+                syms = [z3.BitVec(f"c{i}", 32) for i in range(nsym)]
+                cs = [(c, alpha) for c in syms]
+                pieces = [full[:pos], mk(syms), full[pos + width:]]
+                left, right = full[:pos].split()[-1][-8:], full[pos + width:].split()[0][:8]
+                where = f"{tname} between '{left}' and '{right}'"
+            chars = []
+            for pc_ in pieces:
+                if isinstance(pc_, str):
+                    chars += [ord(c) for c in pc_]
+                else:
+                    chars += pc_
+                    skipped, unterminated = ref_skip(pc_ + [88])
+                    constraints.append(z3.And(skipped == len(pc_), z3.Not(unterminated)))
+            sig = f"C13 fragment {text.split('::=')[0].strip()[:10]}::={text.split('::=', 1)[1][:24] if '::=' in text else ''} {where}"
+
+            def run(ex, cs=cs, chars=chars, fn=fn, input_ty=input_ty, constraints=constraints):
+                for c, alpha in cs:
+                    ex.assume(z3.Or([c == a for a in ((32, 9, 13) if alpha == 'ws3' else WS if alpha == 'ws' else CALPHA)]))
+                for cst in constraints:
+                    ex.assume(cst)
+                return parsed(ex, ex.call(fn, [mk_input(ex, prog, input_ty, chars)]))
+            for r in chk.explore(run):
+                if r.kind != 'ok':
+                    if r.kind == 'panic':
+                        chk.violation(sig + ' panic', f"lexer panics: {r.value[0]}", {'kind': 'text', 'text': wrap(text)})
+                    continue
+                chk.res.obligations += 1
+                if r.value[0] != 'ok':
+                    d = 'parse error'
+                elif r.value[2] != brest:
+                    d = f'stopped {r.value[2]} instead of {brest} characters before the end'
+                else:
+                    d = pipe.values_differ(prog, bval, r.value[1])
+                if d is None:
+                    chk.res.discharged += 1
+                    continue
+                m = chk.model_of(r.pc)
+                if m is None:
+                    chk.res.inconclusive.append(f"no model: {sig}")
+                    continue
+                ftext = ''.join(pc_ if isinstance(pc_, str) else ''.join(chr(model_int(m, c, False)) if not isinstance(c, int) else chr(c) for c in pc_) for pc_ in pieces)
+                ftext = ftext[:len(ftext) - len(FRAG_TAIL)]
+                same = True
+                for be in ('ir', 'rasn'):
+                    o1, o2 = runner.compile(wrap(text), backend=be), runner.compile(wrap(ftext), backend=be)
+                    if o1.get('ok') != o2.get('ok'):
+                        same = False
+                    elif o1.get('ok'):
+                        if be == 'ir':
+                            same = same and strip_comments_ir(o1.get('ir')) == strip_comments_ir(o2.get('ir'))
+                        else:
+                            same = same and strip_doc(o1['generated']) == strip_doc(o2['generated']) and len(o1['warnings']) == len(o2['warnings'])
+                if not same:
+                    chk.violation(sig, f"white-space / comments between tokens change the outcome ({d}): {ftext!r}", {'kind': 'text', 'text': wrap(ftext)})
+                else:
+                    chk.res.inconclusive.append(f"not reproduced natively: {sig}: {d} with {ftext!r}")
+            chk.witness('fragment boundary explored', True)
+    finally:
+        runner.close()
+    chk.res.bounds = {'fragments': len(FRAGMENTS), 'filler': 'quick: a symbolic white-space character at every boundary at once + 3 rotations of concrete comment forms; thorough: + every (boundary, template) pair', 'work_items': len(frag_work(tier))}
+
+
+def strip_comments_ir(ir):
+    import re
+    return re.sub(r'comments: "(?:[^"\\]|\\.)*"', 'comments: _', json_str(ir))
+
+
+def json_str(x):
+    import json
+    return json.dumps(x, sort_keys=True)
+
+
 def run_job(prog, job, tier, seed):
     p = job.split('-')
     if p[0] == 'lexer':
@@ -370,6 +588,14 @@ def run_job(prog, job, tier, seed):
         chk = Checker(pprog, job)
         k, n = p[2].split('of')
         job_lexer(pprog, chk, int(p[1]), int(k), int(n), tier)
+        return chk.res
+    if p[0] == 'frag':
+        from mirsym import pipe
+        from mirsym.harness import program
+        pprog = program(pipe.dump())
+        chk = Checker(pprog, job)
+        k, n = p[1].split('of')
+        job_frag(pprog, chk, int(k), int(n), tier)
         return chk.res
     chk = Checker(prog, job)
     if p[0] == 'skip':
